@@ -1,3 +1,321 @@
-/- Model for C02: not written yet -/
+/-
+M-Dyn: model of pkg/haproxy/dynupdate.go `checkBackendPair`, `checkEndpointPair`,
+`exec{Enable,Disable}Endpoint`, `cmdResponseOK`, `alignSlots`, and of
+pkg/haproxy/types/backend.go `AddEndpoint`/`AddEmptyEndpoint`/`sanitizeName` as far as the
+dynamic update uses them; plus the HAProxy runtime server table (`load` from rendered server
+lines, `apply` of one `set server` command) — trusted HAProxy semantics.  Core-only.
+Shared by C02 (running = disk), C11 (no needless reloads) and C07 (unique server names).
+-/
 namespace HapVerif.C02
+
+structure EP where
+  name : String
+  ip : String
+  port : Nat
+  enabled : Bool
+  weight : Int
+  cookie : String
+  label : String
+  tref : String       -- TargetRef
+  puid : Nat
+deriving DecidableEq, Repr, Inhabited
+
+def EP.target (e : EP) : String := e.ip ++ ":" ++ toString e.port
+
+def emptyIP : String := "127.0.0.1"
+def emptyPort : Nat := 1023
+
+/-- `Endpoint.IsEmpty` -/
+def EP.isEmpty (e : EP) : Bool := e.ip == emptyIP
+
+/-- the parts of a backend that the dynamic update reads -/
+structure Back where
+  eps : List EP
+  dynUpdate : Bool
+  resolver : Bool
+  cookiePreserve : Bool
+  initialWeight : Int := 1
+  naming : Nat := 0          -- 0 sequence, 1 pod (targetRef), 2 ip:port
+deriving Repr
+
+/-! ### responses -/
+
+/-- `cmdResponseOK("set server", response)` -/
+def setServerOK (r : String) : Bool :=
+  r == "" || r.startsWith "IP changed from " || r.startsWith "no need to change "
+
+/-- result of one `socket.Send` of three commands -/
+inductive Resp
+  | err
+  | msgs (m : List String)
+deriving Repr, DecidableEq
+
+/-- the loop `for m in msg: if m != "" && !cmdResponseOK` -/
+def Resp.ok : Resp → Bool
+  | .err => false
+  | .msgs m => m.all setServerOK
+
+/-! ### commands -/
+
+inductive Cmd
+  | disable (name : String)
+  | enable (name ip : String) (port : Nat) (weight : Int)
+deriving Repr, DecidableEq
+
+/-- `sanitizeName` with fuel (the Go recursion terminates because at most `len` names exist) -/
+def sanitizeName (names : List String) (name : String) (n : Nat) : Nat → Nat → String
+  | 0, idx => name ++ "__" ++ toString idx
+  | fuel + 1, idx =>
+    if name = "" then
+      let s := toString (n + 1)
+      "srv" ++ String.ofList (List.replicate (3 - s.length) '0') ++ s
+    else
+      let sname := if idx > 1 then name ++ "__" ++ toString idx else name
+      if names.contains sname then sanitizeName names name n fuel (idx + 1) else sname
+
+def mkEmpty (nm : String) (w : Int) : EP :=
+  { name := nm, ip := emptyIP, port := emptyPort, enabled := false, weight := w, cookie := nm,
+    label := "", tref := "", puid := 0 }
+
+/-- `AddEmptyEndpoint` -/
+def addEmpty (b : Back) : Back :=
+  let nm := sanitizeName (b.eps.map (·.name)) "" b.eps.length (b.eps.length + 1) 1
+  { b with eps := b.eps ++ [mkEmpty nm b.initialWeight] }
+
+/-! ### checkBackendPair -/
+
+/-- state of the pairing loop -/
+structure PairSt where
+  updated : Bool
+  cur : List EP            -- current endpoints (names get assigned)
+  cmds : List Cmd := []    -- commands sent so far
+  script : List Resp       -- responses still to come (exhausted = all ok, empty message)
+  nexec : Nat := 0
+deriving Repr
+
+def PairSt.exec (s : PairSt) (c : Cmd) : PairSt × Bool :=
+  match s.script with
+  | [] => ({ s with cmds := s.cmds ++ [c], nexec := s.nexec + 1 }, true)
+  | r :: rest => ({ s with cmds := s.cmds ++ [c], script := rest, nexec := s.nexec + 1 }, r.ok)
+
+/-- one old/cur association: the old endpoint and the index of the current one -/
+structure Pair where
+  target : String
+  old : EP
+  cur : Option Nat
+deriving Repr
+
+def setName (l : List EP) (i : Nat) (n : String) : List EP := l.modify i (fun e => { e with name := n })
+
+/-- Go map assignment `endpoints[target] = &epPair{old: ep}` (a later duplicate replaces) -/
+def putPair (ps : List Pair) (p : Pair) : List Pair :=
+  if ps.any (·.target = p.target) then ps.map (fun q => if q.target = p.target then p else q) else ps ++ [p]
+
+def insertStr (x : String) : List String → List String
+  | [] => [x]
+  | y :: ys => if x < y then x :: y :: ys else y :: insertStr x ys
+def sortStrs (l : List String) : List String := l.foldl (fun acc x => insertStr x acc) []
+
+/-- `checkEndpointPair` given the (already renamed) current endpoint -/
+def checkEndpointPair (s : PairSt) (preserve : Bool) (old cur : EP) : PairSt × Bool :=
+  if old = cur then (s, true)       -- reflect.DeepEqual (SourceIP is not modelled)
+  else if preserve ∧ old.cookie ≠ cur.cookie then (s, false)
+  else
+    let (s, ok) := s.exec (.enable cur.name cur.ip cur.port cur.weight)
+    (s, ok && old.label = "" && cur.label = "")
+
+/-- stage 1: split the old endpoints into pairs (enabled, by target), the target list and the
+empty (disabled) slots -/
+structure Split where
+  pairs : List Pair := []
+  targets : List String := []
+  empty : List EP := []
+deriving Repr
+
+def splitStep (a : Split) (e : EP) : Split :=
+  if e.enabled then { a with pairs := putPair a.pairs ⟨e.target, e, none⟩, targets := a.targets ++ [e.target] }
+  else { a with empty := a.empty ++ [e] }
+
+def splitOld (old : List EP) : Split := old.foldl splitStep {}
+
+/-- stage 2: current endpoints with a known target take the old name; the others are `added` -/
+structure Assoc where
+  pairs : List Pair
+  cur : List EP
+  added : List Nat := []
+deriving Repr
+
+def setCur (ps : List Pair) (t : String) (i : Nat) : List Pair :=
+  ps.map fun q => if q.target = t then { q with cur := some i } else q
+
+def assocStep (a : Assoc) (i : Nat) : Assoc :=
+  let e := a.cur.getD i default
+  match a.pairs.find? (·.target = e.target) with
+  | some p => { a with pairs := setCur a.pairs e.target i, cur := setName a.cur i p.old.name }
+  | none => { a with added := a.added ++ [i] }
+
+def assocCur (pairs : List Pair) (cur : List EP) : Assoc :=
+  (List.range cur.length).foldl assocStep { pairs := pairs, cur := cur }
+
+/-- stage 3: walk the sorted old targets: reuse, update or disable -/
+structure Walk where
+  s : PairSt
+  pairs : List Pair
+  added : List Nat
+  empty : List EP
+deriving Repr
+
+def walkStep (preserve : Bool) (w : Walk) (t : String) : Walk :=
+  match w.pairs.find? (·.target = t) with
+  | none => w
+  | some p =>
+    -- an old endpoint without successor takes the first added one
+    let (w, p) : Walk × Pair :=
+      match p.cur, w.added with
+      | none, a :: rest =>
+        ({ w with pairs := setCur w.pairs t a, s := { w.s with cur := setName w.s.cur a p.old.name }, added := rest },
+         { p with cur := some a })
+      | _, _ => (w, p)
+    match p.cur with
+    | none =>
+      let (s, ok) := w.s.exec (.disable p.old.name)
+      let s := if !ok || p.old.label ≠ "" then { s with updated := false } else s
+      { w with s := s, empty := w.empty ++ [p.old] }
+    | some ci =>
+      let (s, ok) := checkEndpointPair w.s preserve p.old (w.s.cur.getD ci default)
+      { w with s := if !ok then { s with updated := false } else s }
+
+/-- stage 4: the remaining added endpoints take the empty slots in order -/
+def addedStep (preserve : Bool) (empty : List EP) (acc : Option PairSt × Nat) (a : Nat) : Option PairSt × Nat :=
+  match acc.1 with
+  | none => (none, acc.2 + 1)
+  | some s =>
+    match empty[acc.2]? with
+    | none => (none, acc.2 + 1)          -- Go: index out of range
+    | some slot =>
+      let s := { s with cur := setName s.cur a slot.name }
+      let e := s.cur.getD a default
+      if preserve ∧ e.cookie ≠ slot.cookie then (some { s with updated := false }, acc.2 + 1)
+      else
+        let (s, ok) := s.exec (.enable e.name e.ip e.port e.weight)
+        (some (if !ok || e.label ≠ "" then { s with updated := false } else s), acc.2 + 1)
+
+/-- stage 5: remaining empty slots are copied to the current backend -/
+def copyEmpty (preserve : Bool) (iw : Int) (cur : List EP) (slots : List EP) : List EP :=
+  (slots.foldl (fun (b : Back) slot =>
+      let b := addEmpty b
+      { b with eps := setName b.eps (b.eps.length - 1) slot.name })
+    ({ eps := cur, dynUpdate := true, resolver := false, cookiePreserve := preserve, initialWeight := iw } : Back)).eps
+
+/-- the body of `checkBackendPair` after the early returns (DynUpdate on, no resolver,
+`len old ≥ len cur`).  `none` = Go would panic (index out of range on `empty[i]`). -/
+def pairLoop (old : List EP) (cur : List EP) (preserve : Bool) (iw : Int) (sameRest : Bool) (script : List Resp) :
+    Option PairSt :=
+  let sp := splitOld old
+  let as := assocCur sp.pairs cur
+  let w0 : Walk := { s := { updated := sameRest, cur := as.cur, script := script }, pairs := as.pairs,
+                     added := as.added, empty := sp.empty }
+  let w := (sortStrs sp.targets).foldl (walkStep preserve) w0
+  match (w.added.foldl (addedStep preserve w.empty) (some w.s, 0)).1 with
+  | none => none
+  | some s => some { s with cur := copyEmpty preserve iw s.cur (w.empty.drop w.added.length) }
+
+/-- outcome of `checkBackendPair` -/
+structure Outcome where
+  updated : Bool
+  cur : List EP
+  cmds : List Cmd
+  panic : Bool := false
+deriving Repr
+
+/-- `hasDuplicatedTarget`: two enabled endpoints with the same target -/
+def hasDupTarget (eps : List EP) : Bool :=
+  let ts := (eps.filter (·.enabled)).map (·.target)
+  ts.eraseDups.length ≠ ts.length
+
+def checkBackendPair (old cur : Back) (sameRest : Bool) (script : List Resp) : Outcome :=
+  if old.eps.length < cur.eps.length then ⟨false, cur.eps, [], false⟩
+  else if cur.resolver then
+    if sameRest then
+      -- pad with empty endpoints up to the old size
+      let b := (List.range (old.eps.length - cur.eps.length)).foldl (fun b _ => addEmpty b) cur
+      ⟨true, b.eps, [], false⟩
+    else ⟨false, cur.eps, [], false⟩
+  else if !cur.dynUpdate then
+    if sameRest ∧ old.eps ≠ cur.eps then ⟨false, cur.eps, [], false⟩ else ⟨sameRest, cur.eps, [], false⟩
+  else if hasDupTarget old.eps || hasDupTarget cur.eps then ⟨false, cur.eps, [], false⟩
+  else
+    match pairLoop old.eps cur.eps cur.cookiePreserve cur.initialWeight sameRest script with
+    | none => ⟨false, cur.eps, [], true⟩
+    | some s => ⟨s.updated, s.cur, s.cmds, false⟩
+
+/-! ### alignSlots (one backend) -/
+
+def alignSlots (b : Back) (minFree blockSize : Nat) : Back :=
+  if !b.dynUpdate then b else
+  let bs := if blockSize < 1 then 1 else blockSize
+  if minFree = 0 ∧ b.eps.length = 0 then
+    (List.range bs).foldl (fun b _ => addEmpty b) b
+  else
+    let free := (b.eps.filter (·.isEmpty)).length
+    let b := (List.range (minFree - free)).foldl (fun b _ => addEmpty b) b
+    let n := bs - (((b.eps.length + bs - 1) % bs) + 1)
+    (List.range n).foldl (fun b _ => addEmpty b) b
+
+/-! ### HAProxy runtime server table (trusted semantics) -/
+
+inductive SState | ready | drain | maint
+deriving DecidableEq, Repr
+
+structure Srv where
+  name : String
+  ip : String
+  port : Nat
+  state : SState
+  weight : Int
+deriving DecidableEq, Repr
+
+/-- what HAProxy holds after loading `server <name> <ip>:<port> [disabled] weight <w>` -/
+def loadSrv (e : EP) : Srv :=
+  { name := e.name, ip := e.ip, port := e.port, weight := e.weight,
+    state := if !e.enabled then .maint else if e.weight = 0 then .drain else .ready }
+
+def load (eps : List EP) : List Srv := eps.map loadSrv
+
+/-- `set server b/<name> …` (the three commands of one exec, all answered OK) -/
+def applyCmd (t : List Srv) : Cmd → List Srv
+  | .disable n => t.map fun s => if s.name = n then { s with state := .maint, ip := emptyIP, port := emptyPort, weight := 0 } else s
+  | .enable n ip port w => t.map fun s =>
+      if s.name = n then { s with ip := ip, port := port, weight := w, state := if w > 0 then .ready else .drain } else s
+
+/-- observable normal form: a server in maintenance is only "name, maint" (the statement speaks of
+address/port/weight of *enabled* slots); weight 0 and drain are the same thing -/
+def normSrv (s : Srv) : String × Option (String × Nat × Int) :=
+  match s.state with
+  | .maint => (s.name, none)
+  | _ => (s.name, some (s.ip, s.port, s.weight))
+
+def norm (t : List Srv) : List (String × Option (String × Nat × Int)) := t.map normSrv
+
+/-! ### Specification (oracle) on an implementation outcome -/
+
+def namesNodup (eps : List EP) : Bool := (eps.map (·.name)).eraseDups.length = eps.length
+
+/-- sort by name (server order inside a backend is irrelevant to HAProxy's behaviour) -/
+def insertN (x : String × Option (String × Nat × Int)) :
+    List (String × Option (String × Nat × Int)) → List (String × Option (String × Nat × Int))
+  | [] => [x]
+  | y :: ys => if x.1 < y.1 then x :: y :: ys else y :: insertN x ys
+def sortN (l : List (String × Option (String × Nat × Int))) := l.foldl (fun acc x => insertN x acc) []
+
+def oracle (old : Back) (allOk : Bool) (o : Outcome) : Option String :=
+  if o.panic then some "panic-index-out-of-range" else
+  if !namesNodup o.cur then some "duplicate-server-names" else
+  if !o.updated then none else
+  if !allOk then some "dynamic-update-despite-failed-command" else
+  -- DNS resolver backends are rendered as `server-template srv <len>`: only the slot count is on disk
+  if old.resolver then (if o.cur.length = old.eps.length ∧ o.cmds.isEmpty then none else some "server-template-size-differs") else
+  if sortN (norm (o.cmds.foldl applyCmd (load old.eps))) ≠ sortN (norm (load o.cur)) then
+    some "running-differs-from-disk" else none
+
 end HapVerif.C02
